@@ -7,16 +7,20 @@ RULE = ("case = circuit (vc::genCircuit plus extra nets, or own generator: pins 
         "non-trivial = some net spans >= 2 distinct pin positions and at least one update changed a model's value(); see stats")
 PARTIAL = [
     "all clauses of the statement are proved in Lean for the model (pin_offset_geometric, hpwl_is_bbox_sum, incr_init, incr_inv "
-    "for every circuit, every subset list, every update sequence); what is NOT a theorem: the model = code tie (differential "
-    "stream, bounded by the generator) and C++ int overflow (the model is over unbounded Int; magnitudes up to +-10^6 run under UBSan)",
+    "for every circuit, every subset list, every update sequence; placer_value_is_incremental for the pair of models DetailedPlacer "
+    "holds); what is NOT a theorem: the model = code tie (differential stream, bounded by the generator) and C++ int overflow (the "
+    "model is over unbounded Int; magnitudes up to +-10^6 run under UBSan)",
     "pin_offset_geometric / hpwl_is_bbox_sum assume cell sizes >= 0 and one of the eight orientations (CellsOk); for negative "
     "sizes or INVALID/UNKNOWN orientations the geometric specification is not defined and nothing is claimed",
-    "finalize: the cell->net CSR (cellNets_) is proved to be the exact transpose of the net CSR; the parallel cellPinOffsets_ "
-    "array is not used by any computation and is covered by the complete CSR dumps of the correspondence stream only",
-    "DetailedPlacer::value() itself (xtopo_.value() + ytopo_.value()) is not modelled here; detailed_value_is_hpwl states the "
-    "corollary for the two topologies it is built from (C05 consumes it)",
+    "DetailedPlacer::value() is observed on the real optimiser object (construction, primitive moves through hook H3, callbacks, "
+    "end of run(); both complete models dumped at the end) and tied to PlacerModels (constructor, updateCellPos, value) by feeding the "
+    "Lean model the position changes read from xtopo_/ytopo_; which updateCellPos calls the optimiser issues between two observations "
+    "(including the tentative update/revert pairs of valueOnSwap/valueOnInsert and RowReordering's enumeration) is not modelled here "
+    "(C05 models the moves) — the theorem covers every such history, the stream compares the net effect; without hook H3 in the tree "
+    "only construction, callbacks and the end are observed",
     "orientation-changing moves are outside IncrNetModel's documented scope (pin offsets are frozen at build time): the "
-    "invariant is about position updates; the consequence for detailed placement is known finding KF-C05-1 (C05)",
+    "invariant is about position updates, and the dprun oracle compares value() with the from-scratch HPWL under the offsets of "
+    "the construction-time orientations; the consequence for detailed placement is known finding KF-C05-1 (C05)",
 ]
 ASSUMPTIONS = [
     "C++ int / long long arithmetic modelled as unbounded Int (the streams keep positions within +-10^6 and offsets within "
@@ -33,11 +37,14 @@ ASSUMPTIONS = [
 LEVEL_TEXT = ("Lean 4 theorems over an executable model of Circuit::hpwl / pinXOffset / pinYOffset / placedWidth / placedHeight "
               "(with the orientation tables regenerated from the C++ source on every run) and of IncrNetModel (builder, both CSR "
               "directions, finalize, updateCellPos, recomputeNet, x/yTopology over all cells and over subsets with the fixed "
-              "pseudo-pin folding): the code's pin offsets and placed sizes equal the dihedral-group geometry for all 8 "
+              "pseudo-pin folding; the xtopo_/ytopo_ pair of DetailedPlacer with its constructor, updateCellPos and value()): the code's pin offsets and placed sizes equal the dihedral-group geometry for all 8 "
               "orientations and all integers, hpwl is the sum of the nets' bounding-box half-perimeters, and the incremental value "
-              "equals its from-scratch recomputation initially and after any update sequence. The model is tied to the C++ by a "
+              "equals its from-scratch recomputation initially and after any update sequence (also for DetailedPlacer::value(), which is "
+              "Circuit::hpwl right after construction); finalize's cell->pin table (cellNets_ and cellPinOffsets_) is the exact transpose "
+              "of the net->pin table for every built model. The model is tied to the C++ by a "
               "line-for-line differential stream (random circuits x all orientations x random update histories, full and subset "
-              "models, complete CSR dumps), and an independent geometric oracle in the harness evaluates the property statement "
+              "models, complete CSR dumps; the real DetailedPlacer object constructed and run on legalized circuits, value() compared at "
+              "construction, at primitive moves, callbacks and the end), and an independent geometric oracle in the harness evaluates the property statement "
               "on the real code for every compared state")
 LEVEL_NOTE = ("Trusted: Lean kernel (axioms propext/Classical.choice/Quot.sound only), the hand-written model's tie to the code "
               "(differential, bounded by the generator), tools/translate.py for Gen/OrientTables, unbounded Int for C++ int, "
